@@ -6,6 +6,7 @@ order with their name, party and designated operation; a second, different input
 used name is rejected (whatever parties own the two); every party of an output is listed.
 -/
 import NadaVerif.Lemmas.CompileClosed
+import NadaVerif.Lemmas.AccExact
 
 namespace NadaVerif.C10
 open NadaVerif NadaVerif.Spec NadaVerif.Lemmas
@@ -81,6 +82,16 @@ theorem addInput_lists_party (acc acc' : CAcc) (i : MirInput) (h : addInput acc 
   · simp at h
   · simp at h; subst h
     exact ⟨(mem_insertSorted _ _ _).2 (.inl rfl), fun p hp => (mem_insertSorted _ _ _).2 (.inr hp)⟩
+
+/-- Every input entry of the MIR carries the name, owning party, type and documentation string of the traced input
+it stands for (it *is* the store's record of that id); every input an emitted operation refers to is listed, and no
+name is listed twice. -/
+theorem inputs_as_declared (st : St) (outs : List OutDecl) (m : MirProg) (h : compile st outs = .ok m) :
+    (∀ i ∈ m.inputs, st.lookup i.id = some (.input i.name i.party i.doc i.ty)) ∧
+    (m.inputs.map (·.name)).Nodup ∧
+    ∀ t ∈ allTables m, ∀ e ∈ t, ∀ n p d ty, e.2 = .input n p d ty → (⟨n, ty, p, d, e.1⟩ : MirInput) ∈ m.inputs := by
+  obtain ⟨h1, h2, _, hc⟩ := compile_acc st outs m h
+  exact ⟨h2, h1, fun t ht e he n p d ty heq => ((hc t ht e he).1 n p d ty heq).1⟩
 
 example : addInput { inputs := [("P", [⟨"x", .scalar "SecretInteger", "P", "", 1⟩])], parties := ["P"] }
     ⟨"x", .scalar "SecretInteger", "Q", "", 2⟩ = .error .compiler := by rfl
